@@ -55,6 +55,18 @@ CHECKS = {
     "C19": ("exploration", "5.C19", "setattr/delattr, aliasing and double-serialization monitors on real generated instances (constructed and deserialized)",
             "Every public field and byte_size of every instance reached (nested structs and case data included) is assigned and deleted (must raise AttributeError); arrays must be tuples; caller-side mutation of constructor lists must not show; serialization is repeatable.",
             "Type-conforming constructor arguments."),
+    "C14": ("exploration", "5.C14", "construction histories with membership snapshots on real enum classes (hand-written + generated), two interpreters",
+            "Hand-written declarations (dense, sparse, zero-less, None member, negative/huge ordinals) and every enum generated from corpus + SpecGen trees x integers -5..N, 253^k+-1, 2^31, 2^63, 2^70: identity of declared members, value/hash/name/int of unrecognised ones, members unchanged after shuffled construction histories; hand-written part repeated under CPython 3.11.",
+            "Only CPython 3.12 and 3.11 exist in the sandbox."),
+    "C17": ("exploration", "5.C17", "one-rule spec mutants at every placement, certified by an independent grammar model; monitor = generator raises vs returns",
+            "Valid trees (corpus + SpecGen) x the catalogue of single rule-violating edits applied at random eligible sites per (operator, placement class: top level / chunked / switch case / case in chunked / file); the real generator must raise for every mutant the grammar model confirms.",
+            "Grammar model vf/ref/grammar.py states the catalogue's rules."),
+    "C18": ("exploration", "5.C18", "injected environment: hash-seed sweep, os.walk shim, audit hook, repeated / failed / pre-populated runs, protocol.py CLI, fresh-interpreter import probe",
+            "Every certified-valid tree is generated in fresh interpreters under >= 11 configurations; outputs must be byte-identical, the audit hook must see only writes under the output root (none twice), and a fresh interpreter must import the package and find every declared type as a class in its module, its documented subpackage and the top level.",
+            "Directory enumeration order is explored through an os.walk shim; validity of trees = grammar model."),
+    "C20": ("exploration", "5.C20", "fresh interpreter per first-import choice; attribute-walk and object-identity monitors against sys.modules and defining modules",
+            "For each tree (incl. type names that become awkward module names) every static module/package and sampled generated modules is imported first, then eolib: every dotted path must be reachable by attribute access and be sys.modules[path]; every public name of hand-written modules and every generated class must be one object in its module, home subpackage and the top level.",
+            "Definition of 'public names a subpackage defines' as stated in DESIGN 5/C20."),
 }
 PENDING = ["C01", "C02", "C03", "C14", "C15", "C16", "C17", "C18", "C19", "C20"]
 
